@@ -2,7 +2,7 @@
     Statements are in VekProofs.C17_spec (reals) and VekProofs.C17_int_spec (machine integers);
     programs are regenerated from /repo by symx (the scalar impls are lifted textually from src/ops.rs). *)
 From VekLib Require Import Ops ROps LinAlg RLin MachineInt.
-From VekProofs Require Import C17_spec C17_int_spec C17_pa C17_pb C17_pc C17_int.
+From VekProofs Require Import C17_spec C17_int_spec C17_pa C17_pb C17_pc C17_int C17_fl.
 
 Theorem C17_clamp : C17_clamp_stmt.                                 Proof. exact C17_pa.C17_clamp. Qed.
 Theorem C17_wrap : C17_wrap_stmt.                                   Proof. exact C17_pb.C17_wrap. Qed.
@@ -11,6 +11,8 @@ Theorem C17_int_clamp : C17_int_clamp_stmt.                         Proof. exact
 Theorem C17_int_wrapped_between : C17_int_wrapped_between_stmt.     Proof. exact C17_int.C17_int_wrapped_between. Qed.
 Theorem C17_int_wrap : C17_int_wrap_stmt.                           Proof. exact C17_int.C17_int_wrap. Qed.
 (** the inputs of the three repaired overflow defects now give the demanded values, with and without overflow checks *)
+(** float clause for wrapped, under the rounded interpretation of lib/FlOps.v: congruent and in range up to a few ulps of |x| *)
+Theorem C17_float_wrapped : C17_float_wrapped_stmt.                 Proof. exact C17_fl.C17_float_wrapped. Qed.
 Theorem C17_repaired : C17_repaired_stmt.                           Proof. exact C17_int.C17_repaired. Qed.
 
 Print Assumptions C17_clamp.
@@ -20,3 +22,4 @@ Print Assumptions C17_int_clamp.
 Print Assumptions C17_int_wrapped_between.
 Print Assumptions C17_int_wrap.
 Print Assumptions C17_repaired.
+Print Assumptions C17_float_wrapped.
